@@ -388,3 +388,8 @@ def check(ctx):
     r7_check_region(ctx)
     from . import c07
     c07.exact_stop(ctx, "R8")
+    ctx.alias = {"R2": "R8"}
+    try:
+        c07.r2_line_coordinates(ctx)
+    finally:
+        ctx.alias = {}
